@@ -4,7 +4,7 @@ import itertools, json
 import z3
 from .executor import Unsupported
 from .values import *
-from .txmodel import Ctx, mk_struct, none, some
+from .txmodel import Ctx, mk_struct, none, some, mk_interp
 from . import concrete as C
 from . import seqeq as SE
 from . import opspec as OS
@@ -218,7 +218,7 @@ def q_step_error(env, ops=None, name=None):
                         bit = Enum("ScriptBit", "OpCode", E["OpCode"], [Enum("OpCodes", op, opbyte)])
                     else:
                         bit = Enum("ScriptBit", "If", E["If"], [Enum("OpCodes", op, opbyte), ListV([]), none()])
-                    interp = mk_struct(P, "Interpreter", script_bits=ListV([clone(bit)]), script_index=Int(0, "usize"), state=state, tx_script=none())
+                    interp = mk_interp(P, script_bits=ListV([clone(bit)]), script_index=Int(0, "usize"), state=state, tx_script=none())
                     ctx.interp = Ptr([interp], 0)
                     return f, [ctx.interp, Ptr([bit], 0)], ctx
                 try:
@@ -315,7 +315,7 @@ def q_if_branch(env, name=None):
                     state = mk_struct(P, "State", stack=ListV([Bytes(seq_of(it)) for it in ctx.items]), alt_stack=ListV([Bytes(seq_of(it)) for it in ctx.alt]),
                                       status=Enum("Status", "Running", P.enums["Status"]["Running"]), executed_opcodes=ListV([]), codeseparator_offset=Int(0, "usize"))
                     ifbit = Enum("ScriptBit", "If", E["If"], [Enum("OpCodes", op, opbyte), ListV([clone(b) for b in ctx.passb]), some(ListV([clone(b) for b in ctx.failb])) if has_fail else none()])
-                    interp = mk_struct(P, "Interpreter", script_bits=ListV([clone(ctx.before), clone(ifbit), clone(ctx.after)]), script_index=Int(1, "usize"), state=state, tx_script=none())
+                    interp = mk_interp(P, script_bits=ListV([clone(ctx.before), clone(ifbit), clone(ctx.after)]), script_index=Int(1, "usize"), state=state, tx_script=none())
                     ctx.interp = Ptr([interp], 0)
                     return f, [ctx.interp, Ptr([ifbit], 0)], ctx
                 try:
@@ -442,7 +442,7 @@ def q_step_vs_run(env, name=None):
         def interp_value(ctx):
             state = mk_struct(P, "State", stack=ListV([Bytes(seq_of(it)) for it in ctx.items]), alt_stack=ListV([]), status=Enum("Status", "Running", P.enums["Status"]["Running"]),
                               executed_opcodes=ListV([]), codeseparator_offset=Int(0, "usize"))
-            return mk_struct(P, "Interpreter", script_bits=ListV(mk()), script_index=Int(0, "usize"), state=state, tx_script=none())
+            return mk_interp(P, script_bits=ListV(mk()), script_index=Int(0, "usize"), state=state, tx_script=none())
 
         def setup(ex):
             ctx = Ctx()
